@@ -8,8 +8,8 @@ look-up reading the property asks for).  The decisive part of C13 is the corresp
 real pandas-based code (`./check C13`), and "neither operand is modified" is about Python aliasing and is
 checked on the real code only (deep copies before / after).
 
-The model describes the code after the repairs under `tools/fixes/C13-*.diff`: for a pandas parameter the
-Broadcaster always returns (`broadcast_total`); the only modelled error is the documented `ValueError` for an array
+The model describes the code after the repairs (repo commits b3ce47d, c67dac2, 20f8491, 83030b7, 190635a, bc2cb7f):
+for a pandas parameter the Broadcaster always returns (`broadcast_total`); the only modelled error is the documented `ValueError` for an array
 of a wrong length, so the theorems about the result are stated under `broadcast … = .ok out`.
 
 Hypothesis `Tbl.KeysNodup`: no two rows of an operand have the same key (the quantifier speaks of key SETS; with
@@ -251,7 +251,7 @@ is present in the other operand (this covers "overlapping" as the quantifier res
 non-empty operands), or a level is shared and the operand is not a flat index against a MultiIndex
 (this covers equal level sets and the operand with MORE levels of a containment, with any key sets, and after the
 repair also the operand with fewer levels when two or more levels are shared).
-The exception - `row_lost_iff` below - is the finding-like behaviour D13-12: containment with ONE shared level, the
+The exception - `obj_row_lost_iff` below - is the finding-like behaviour D13-12: containment with ONE shared level, the
 flat operand's partner-less rows vanish. -/
 theorem broadcast_no_row_lost_partial (obj prm : Tbl V)
     (hgo : (∀ ro ∈ obj.rows, ∃ rp ∈ prm.rows, agree obj.names ro.1 prm.names rp.1 = true) ∨
@@ -569,7 +569,7 @@ theorem broadcast_array (obj : Tbl V) (vs : List V) (out : Out V) (hn : obj.name
   simp only [split, broadcastTbl, resultNames_self, List.mem_map]
   exact ⟨⟨_, hm, rfl⟩, ⟨_, hm, rfl⟩⟩
 
-/-- A pandas parameter is never rejected (after the repairs `tools/fixes/C13-*.diff`): for EVERY layout of
+/-- A pandas parameter is never rejected (after the repairs b3ce47d, 83030b7, 190635a, bc2cb7f): for EVERY layout of
 level names and every key sets the two aligned tables are returned, with the look-up reading of section 2 and
 pairwise distinct keys. -/
 theorem broadcast_total (obj prm : Tbl V) (hko : obj.KeysNodup) (hkp : prm.KeysNodup) :
